@@ -123,6 +123,12 @@ def strtypes_family(chk, tier):
     corpus = sorted(set(corpus) | set(DS.MC_STR.values()) | {"", "1_000", " 12 ", "0x10", "1e309", "-0", "٣.٥", "TrUe", "2020-02-30", "24:00", "12", "10:30", "2018-01-02", "20180103", "2018-01-02T03:04:05", "1e3",
                                                                   "12:" + "9" * 320, "1234567890123456789012:00", "9" * 25 + "-01-02"} | DS.ALWAYS)
     configs = DS.registries_from_tlc(chk, 2 if quick else 3)
+    # (three operations are beyond the quick bound: the histories that need them are given explicitly - registration repeated, then a
+    # removal by class / by name)
+    for third in (["remove", "IsoTimeString"], ["remove", "IsoDateString"], ["disable", "time"], ["disable", "IsoDatetimeString"]):
+        rest = [c for c in ("IsoDateString", "IsoTimeString", "IsoDatetimeString")
+                if not (third[1] == c or (third[0] == "disable" and third[1] in ("time",) and c == "IsoTimeString"))]
+        configs.append({"ops": [["datetime", ""], ["datetime", ""], third], "types": ["IntString", "FloatString", "BooleanString"] + rest})
     chk.exhaustive_parts.append("MC_StrTypes: every registry reachable by <=%d register/disable operations; MC_StrGrammar: every string of <=%d tokens"
                                 % (2 if quick else 3, 2 if quick else 3))
     if quick:
